@@ -6,7 +6,10 @@ import textwrap
 
 TEXTS = ['x', 'a b c', '{', '}', '{}', '{0}', '{name}', '{{double}}', '%s %d', 'back\\slash', 'é日本😀',
          'tab\there', '"quoted"', "it's", 'a{b}c{', '}{', '{!r}', '{:>10}', '$x', 'func(a, b)', '',
-         'trailing space ', '  leading', '{0.attr}', '{a[0]}']
+         'trailing space ', '  leading', '{0.attr}', '{a[0]}',
+         # control characters and line separators other than \n travel verbatim too
+         'ends with cr\r', 'cr\rmid', '\r', 'form\x0cfeed', 'vt\x0b', 'sep\u2028ls\u2029ps', 'nel\x85',
+         '\ufeffbom', 'nul\x00', 'nbsp\u00a0']
 WORDS = ['alpha', 'beta', '{gamma}', 'delta-epsilon', 'z' * 30, 'é😀', '{0}', '%s', 'a/b/c', 'x' * 95, 'q']
 
 
